@@ -37,12 +37,12 @@ let loop_check fs (sy : sys) (k : int) : string option =
       let indiv = Sexp.atom (Sexp.field1 "mode" l) = "indiv" in
       let nm = names_of_case fs in
       let model = bmc_events code_variant sy nm ca indiv (N.to_nat (n_of_int k)) in
-      (* patches/0002: the commands of init_at(0) in the order of Encoding.init_at2 *)
+      (* patches/0002, 0003: the commands of init_at(0) in the order of Encoding.init_at2 / init_at3 *)
       let model = match model with
-        | Some m when second_repair && sy.s_bads <> [] ->
+        | Some m when (second_repair || third_repair) && sy.s_bads <> [] ->
             let en = enc_new sy nm in
             let n0 = List.length (init_at code_variant en N0) in
-            Some (List.map (fun c -> EvCmd c) (init_at2 en) @ List.filteri (fun i _ -> i >= n0) m)
+            Some (List.map (fun c -> EvCmd c) (repaired_init_block en) @ List.filteri (fun i _ -> i >= n0) m)
         | m -> m in
       (match Sexp.field_opt "events" l, model with
        | Some evs, Some m ->
